@@ -231,13 +231,31 @@ func genOp(t *rapid.T, kinds []string, hp *HistoryParams, depth int) Op {
 		for i := 0; i < n; i++ {
 			op.Sub = append(op.Sub, genOp(t, sub, hp, depth+1))
 		}
-		op.Sched = rapid.SliceOfN(rapid.IntRange(0, 2), 0, 40).Draw(t, "sched")
+		op.Sched = GenSchedule(t)
 	default:
 		op.A = rapid.IntRange(0, 7).Draw(t, "a")
 		op.B = rapid.IntRange(0, 63).Draw(t, "b")
 		op.C = rapid.IntRange(0, 7).Draw(t, "c")
 	}
 	return op
+}
+
+// GenSchedule draws scheduler decisions: either uniformly mixed or bursty (one task runs several steps in a row),
+// because many races need "A starts, B runs to completion, A continues".
+func GenSchedule(t *rapid.T) []int {
+	if rapid.Bool().Draw(t, "bursty") {
+		var out []int
+		n := rapid.IntRange(1, 6).Draw(t, "bursts")
+		for i := 0; i < n; i++ {
+			v := rapid.IntRange(0, 2).Draw(t, "burstTask")
+			l := rapid.IntRange(1, 25).Draw(t, "burstLen")
+			for j := 0; j < l; j++ {
+				out = append(out, v)
+			}
+		}
+		return out
+	}
+	return rapid.SliceOfN(rapid.IntRange(0, 2), 0, 40).Draw(t, "sched")
 }
 
 // GenHistory draws a complete case.
@@ -311,9 +329,9 @@ func GenHistory(t *rapid.T, hp *HistoryParams) Case {
 		}
 		maxKind := 6
 		if hp.Episodes {
-			maxKind = 10
+			maxKind = 12
 		}
-		sched := func() []int { return rapid.SliceOfN(rapid.IntRange(0, 2), 0, 40).Draw(t, "psched") }
+		sched := func() []int { return GenSchedule(t) }
 		switch rapid.IntRange(0, maxKind).Draw(t, "phraseKind") {
 		case 7: // old incarnation's events race with the replacement's scheduling
 			c.Ops = append(c.Ops, ab("recreate"), Op{K: "deliver"}, Op{K: "deliver"},
@@ -323,6 +341,9 @@ func GenHistory(t *rapid.T, hp *HistoryParams) Case {
 		case 9: // resync / API release against scheduling
 			c.Ops = append(c.Ops, ab("recreate"), Op{K: "episode", Sub: []Op{rapid.SampledFrom([]Op{{K: "resync"}, ab("apirelease"),
 				{K: "deliver"}}).Draw(t, "vs"), ab("sched")}, Sched: sched()})
+		case 11, 12: // a resync pass overlaps the old incarnation's unbind and the replacement's scheduling
+			c.Ops = append(c.Ops, ab("recreate"), Op{K: "deliver"}, Op{K: "deliver"},
+				Op{K: "episode", Sub: []Op{{K: "resync"}, ab("unbind"), ab("sched")}, Sched: sched()})
 		case 10: // filter now, bind later while something else runs
 			c.Ops = append(c.Ops, ab("create"), ab("filter"), Op{K: "episode", Sub: []Op{ab("bind"), rapid.SampledFrom([]Op{{K: "resync"},
 				ab("unbind"), ab("sched"), {K: "syncips"}}).Draw(t, "vs2")}, Sched: sched()})
